@@ -323,6 +323,113 @@ class Storm:
             c.close()
         self.quiesce(srv, expect_users=[], expect_conns=0, what="order storm teardown")
 
+    # ---------------------------------------------------------------- W13 one attribute, many writers
+    def w_settings(self, srv, k, what):
+        """k members set one single-valued attribute of one channel (topic / limit / key) at the same moment, three
+        values each: whatever serial order the server chose, every member hears the same sequence of announcements
+        (each value once, each writer's values in its own order) and the value stored at the end is the last one
+        announced"""
+        self.rounds += 1
+        pfx = self.uid("s")
+        cs = open_many(srv, k, pfx, password=self.password)
+        chan = "#" + self.uid("set")
+        cs[0].send("JOIN " + chan)
+        cs[0].ping("a")
+        for c in cs[1:]:
+            c.send("JOIN " + chan)
+        for c in cs:
+            c.ping("b")
+        if what != "topic":
+            for i in range(1, k):
+                cs[0].send("MODE %s +o %s%d" % (chan, pfx, i))
+            cs[0].ping("c")
+        for c in cs:
+            c.ping("d")
+            c.read_available(0.0)
+            c.keep_transcript = True
+            c.transcript = []
+        datas = []
+        want = set()
+        for i in range(k):
+            lines = []
+            for j in range(3):
+                v = {"topic": "t-%d-%d" % (i, j), "limit": str(100 + i * 10 + j), "key": "k%dx%d" % (i, j)}[what]
+                want.add(v)
+                lines.append({"topic": "TOPIC %s :%s" % (chan, v), "limit": "MODE %s +l %s" % (chan, v),
+                              "key": "MODE %s +k %s" % (chan, v)}[what])
+            datas.append(("\r\n".join(lines) + "\r\n").encode())
+        order = list(range(k))
+        self.r.shuffle(order)
+        fire([cs[i] for i in order], [datas[i] for i in order])
+        # announcements travel through each member's own queue (a PONG does not): two rounds of self-addressed markers -
+        # after the first every command has been executed, after the second everything queued by then has been read
+        for rnd in ("m1", "m2"):
+            for i, c in enumerate(cs):
+                c.send("PRIVMSG %s%d :%s" % (pfx, i, rnd))
+            for i, c in enumerate(cs):
+                c.read_until(lambda m: m.verb == "PRIVMSG" and m.params[-1:] == [rnd], 15.0)
+        seqs = {}
+        for i, c in enumerate(cs):
+            seq = []
+            for d, l in c.transcript:
+                if d != "<":
+                    continue
+                m = wire.Msg(l)
+                if what == "topic" and m.verb == "TOPIC" and m.params[:1] == [chan]:
+                    seq.append(m.params[-1])
+                elif what == "limit" and m.verb == "MODE" and m.params[:2] == [chan, "+l"]:
+                    seq.append(m.params[2])
+                elif what == "key" and m.verb == "MODE" and m.params[:1] == [chan] and "+k" in m.params[1]:
+                    seq.append(m.params[-1])
+            self.events += len(c.transcript)
+            c.keep_transcript = False
+            seqs["%s%d" % (pfx, i)] = seq
+        ref_n, ref = sorted(seqs.items())[0]
+        ok = True
+        for n, seq in sorted(seqs.items()):
+            if sorted(seq) != sorted(want):
+                ok = False
+                self.bad("storm:settings-announcements", "%d members set the %s of %s three times each: %s heard %d "
+                         "announcements (%d distinct) instead of %d" % (k, what, chan, n, len(seq), len(set(seq)), len(want)))
+                break
+            if seq != ref:
+                ok = False
+                self.bad("storm:settings-order", "%d members set the %s of %s at once: %s heard ...%s, %s heard ...%s - no "
+                         "one order of the commands explains both" % (k, what, chan, ref_n, ref[-4:], n, seq[-4:]))
+                break
+        if ok:
+            for i in range(k):
+                mine = [v for v in ref if v in {"t-%d-%d" % (i, j) for j in range(3)} | {str(100 + i * 10 + j) for j in range(3)}
+                        | {"k%dx%d" % (i, j) for j in range(3)}]
+                if mine != sorted(mine):
+                    ok = False
+                    self.bad("storm:settings-own-order", "%s%d's three values were announced as %s" % (pfx, i, mine))
+                    break
+        if ok and ref:
+            if what == "topic":
+                cs[0].send("TOPIC " + chan)
+                got = [m.params[-1] for m in cs[0].ping("q") if m.verb == "332"]
+            else:
+                cs[0].send("MODE " + chan)
+                got = []
+                for m in cs[0].ping("q"):
+                    if m.verb == "324" and len(m.params) > 2:
+                        args = list(m.params[3:])
+                        for letter in m.params[2].lstrip("+"):
+                            if letter in "kl" and args:
+                                v = args.pop(0)
+                                if letter == ("l" if what == "limit" else "k"):
+                                    got.append(v)
+            if got != [ref[-1]]:
+                ok = False
+                self.bad("storm:settings-final", "the last %s every member of %s heard announced is %r, the server stores %r"
+                         % (what, chan, ref[-1], got))
+            self.orders.add((what,) + tuple(ref[-3:]))
+        self.classes.add(("settings", what, k, ok))
+        for c in cs:
+            c.close()
+        self.quiesce(srv, expect_users=[], expect_conns=0, what="settings storm teardown")
+
     # ---------------------------------------------------------------- W3 limit
     def w_limit(self, srv, k, limit):
         self.rounds += 1
@@ -1038,7 +1145,7 @@ def worker(args):
             try:
                 for _ in range(rounds):
                     kind = r.choice(["claim", "claim", "claim", "rename", "firstjoin", "order", "limit", "fifo", "churn",
-                                     "flood", "stall", "quitflood"] if only is None else only)
+                                     "flood", "stall", "quitflood", "settings"] if only is None else only)
                     if kind == "claim":
                         st.w_claim(srv, r.choice([4, 8, 16]), r.choice(["nick-then-user", "user-then-nick", "one-segment"]))
                     elif kind == "rename":
@@ -1051,6 +1158,8 @@ def worker(args):
                         st.w_limit(srv, r.choice([6, 10]), r.choice([1, 2, 3, 5]))
                     elif kind == "fifo":
                         st.w_order_full(srv, r.choice([3, 5, 12]), r.choice([30, 120]) if quick else r.choice([80, 400]))
+                    elif kind == "settings":
+                        st.w_settings(srv, r.choice([4, 8, 12]), r.choice(["topic", "topic", "limit", "key"]))
                     elif kind == "idle":
                         st.w_idle(srv)
                     elif kind == "queries":
